@@ -21,7 +21,7 @@ bash "$SRC/demo.sh" "$W/mlr-seed" > "$W/demo-seed.out" 2>&1; DS=$?
 echo "RESULT $ID: pinned_tests_rc=$TESTS demo_on_unchanged_rc=$DB demo_on_seeded_rc=$DS"
 if [ $TESTS -eq 0 ] && [ $DB -eq 0 ] && [ $DS -ne 0 ]; then
   D=/verif/seeded/$ID; mkdir -p "$D"
-  git -C "$WT" diff -- . ':!pkg/parsing/parser/parser.go' > "$D/patch.diff"
+  git -C "$WT" diff HEAD -- . ':!pkg/parsing/parser/parser.go' > "$D/patch.diff"
   cp "$SRC/demo.sh" "$D/demo.sh"; cp "$SRC/meta.json" "$D/meta.orig.json"
   tail -5 "$W/demo-base.out" > "$D/demo-on-unchanged.out"; tail -15 "$W/demo-seed.out" > "$D/demo-on-seeded.out"
   echo "CONFIRMED $ID -> $D (base commit $(git -C /repo rev-parse --short HEAD))"
